@@ -599,7 +599,7 @@ func (w *worker) runCase(cs J) (res CaseResult) {
 	prev := ob.String()
 	for i, s := range steps {
 		st := s.(J)
-		cmd := jCmd(st["cmd"])
+		cmd := ctx.substTime(jCmd(st["cmd"]))
 		cn := conns[jInt(st["c"])]
 		if cn == nil {
 			return fail(i+1, "error", "case names an unknown connection")
